@@ -4,6 +4,7 @@ import hashlib
 import json
 import logging
 import random
+import sys
 import warnings
 
 from . import sched as S
@@ -108,6 +109,21 @@ class SimRun:
     def __exit__(self, et, ev, tb):
         try:
             self.alive = self.sim.finish()
+            # Finalise suspended generators of this run NOW, while the seams are still installed and the
+            # simulator is in abort mode (every sim primitive raises SimAbort at once).  Otherwise their
+            # `finally:` blocks (Plugin.iter -> cleanup -> Saver.close -> wait ...) would run at some later
+            # garbage collection, outside any simulation, against the real primitives.
+            mine = not self.sim.aborting
+            if mine:
+                self.sim._set_abort("teardown")
+            hook = sys.unraisablehook
+            sys.unraisablehook = lambda *a: None
+            try:
+                gc.collect()
+            finally:
+                sys.unraisablehook = hook
+                if mine:
+                    self.sim.aborting = None
         finally:
             shims.uninstall()
             if self.fs is not None:
